@@ -131,12 +131,41 @@ def mk_gbox(rng: random.Random, h: int, w: int, GeoBox, allow_rot=True):
         res = rng.choice([1, 10, 30, 0.5, 2.5, 25])
         x0, y0 = rng.randint(-100000, 100000) * 0.5, rng.randint(-100000, 100000) * 0.5
     r = rng.random()
-    if r < 0.7 or not allow_rot or min(h, w) < 2:
-        A = Affine(res, 0, x0, 0, -res, y0) if r < 0.6 else Affine(res, 0, x0, 0, res, y0)
-    else:
+    if r < 0.6 or not allow_rot or min(h, w) < 2:
+        A = Affine(res, 0, x0, 0, -res, y0) if r < 0.5 else Affine(res, 0, x0, 0, res, y0)
+    elif r < 0.75:
         A = Affine(res, res / 4, x0, res / 8, -res, y0)  # rotated / sheared
+    else:
+        # slightly rotated grids at every pixel-size scale (1e-6 deg ... 1e5 m) and small angles (0.01 ... 5 deg): the
+        # off-diagonal terms span ~1e-10 ... 1e4.  (Below 1e-10 — the absolute tolerance of math.is_affine_st — the rotation
+        # is dropped on the unchanged tree: known finding, probed once per run, not generated here.)
+        sc = rng.choice([1e-6, 1e-5, 1e-4, 1e-3, 0.25]) if crs_is_4326 else rng.choice([1e-2, 0.1, 1, 30, 1e3, 1e5])
+        ang = rng.choice([0.01, 0.05, 0.1, 0.5, 1, 2, 5]) * rng.choice([-1, 1])
+        while abs(sc * math.sin(math.radians(ang))) < 3e-10:
+            ang *= 2
+        if crs_is_4326:
+            x0, y0 = rng.randint(-170, 170) + 0.1, rng.randint(-60, 60) + 0.3
+        A = Affine.translation(x0, y0) * Affine.rotation(ang) * Affine.scale(sc, -sc * rng.choice([1, 1, 1.5]))
     gb = GeoBox((h, w), A, crs)
     return gb, spec
+
+
+def geo_registration_error(src, got, h, w):
+    """the file's transform against the SOURCE GeoBox's affine (not the writer's view after the trip through xarray):
+    every coefficient of the linear part within 1e-6 relative to the largest one, the origin within 1e-3 px, and all four
+    image corners mapped within 1e-3 px of where the source GeoBox puts them"""
+    lin = max(abs(v) for v in (src.a, src.b, src.d, src.e))
+    for name in "abde":
+        if abs(getattr(src, name) - getattr(got, name)) > 1e-6 * lin:
+            return (f"coefficient {name}: file {getattr(got, name)!r}, source GeoBox {getattr(src, name)!r} "
+                    f"(file {tuple(got)[:6]}, source {tuple(src)[:6]})")
+    inv = ~src
+    for cx_, cy_ in ((0, 0), (w, 0), (0, h), (w, h)):
+        qx, qy = inv * (got * (cx_, cy_))
+        err = math.hypot(qx - cx_, qy - cy_)
+        if not err <= 1e-3:
+            return f"image corner ({cx_},{cy_}) is {err:.3g} px away from where the source GeoBox puts it (file {tuple(got)[:6]}, source {tuple(src)[:6]})"
+    return None
 
 
 def mk_pix(prng, shp, dt):
@@ -379,7 +408,7 @@ def one_case(cfg, workdir, tag, shared=None):
     RIO, _, GeoBox, wrap_xr = _imp()
     fails = []
     facts = {}
-    xx, pix, want, _ = build(cfg, GeoBox, wrap_xr)
+    xx, pix, want, gbox_src = build(cfg, GeoBox, wrap_xr)
     h, w, layout = cfg["h"], cfg["w"], cfg["layout"]
     gbox = xx.odc.geobox  # what the writer sees
     if gbox is None or gbox.shape != (h, w):
@@ -518,6 +547,10 @@ def one_case(cfg, workdir, tag, shared=None):
                               f"{int(bad.sum())} values differ, e.g. band {b_ + 1} ({y_},{x_}): wrote {want[b_, y_, x_]!r} read {got[b_, y_, x_]!r}"))
             if tuple(f.transform)[:6] != tuple(gbox.transform)[:6]:
                 fails.append(("transform-differs", f"{tuple(f.transform)[:6]} vs {tuple(gbox.transform)[:6]}"))
+            else:
+                msg = geo_registration_error(gbox_src.affine, f.transform, h, w)
+                if msg:
+                    fails.append(("transform-differs", msg))
             crs_ok, crs_msg = crs_same(f.crs, cfg["_crs_spec"])
             if not crs_ok:
                 fails.append(("crs-differs", crs_msg))
@@ -790,6 +823,44 @@ def run(R: Run):
         for i, cfg in enumerate(fixed):
             run_case(R, cfg, workdir, f"k{i}")
             done += 1
+
+        # ---- layout x size-threshold x DEFAULT options: every axis layout the writer accepts (2-D, band-first, band-last with
+        # 1 / 3 / 4 bands) with the smaller spatial side on both sides of the 512 px default-overview threshold, overview
+        # options left at their defaults; the pyramid read back must be the documented default for the SPATIAL shape
+        thr = []
+        for lay_, nb_ in (("YX", 1), ("SYX", 1), ("SYX", 3), ("SYX", 4), ("YXS", 1), ("YXS", 3), ("YXS", 4)):
+            for small in (511, 512, 513, 600):
+                for tall in (False, True):
+                    big_ = small + [0, 37, 188][(small + nb_) % 3]
+                    thr.append(mk(layout=lay_, nb=nb_, h=big_ if tall else small, w=small if tall else big_, dtype="uint8",
+                                  ovr_mode="default", blocksize=[None, 256, 512][(small + nb_) % 3], content=["tiles", "zeros", "checker"][nb_ % 3],
+                                  entry=ENTRIES[(small + nb_ + tall) % 2 * 3], attrs_nodata=[None, 255][nb_ % 2], seed=7000 + small + nb_))
+        for c_ in thr:
+            if c_["entry"] in ("to_cog", "acc_to_cog"):
+                c_["dest"] = "mem"
+        must = [c_ for c_ in thr if c_["layout"] == "YXS" and c_["nb"] >= 3 and min(c_["h"], c_["w"]) in (512, 600)][:1] + \
+               [c_ for c_ in thr if c_["layout"] == "SYX" and c_["nb"] >= 3 and min(c_["h"], c_["w"]) in (512, 513)][:1]
+        pick_thr = thr if not R.quick else must + rng.sample([c_ for c_ in thr if c_ not in must], 8)
+        for i, cfg in enumerate(pick_thr):
+            run_case(R, cfg, workdir, f"t{i}")
+            done += 1
+
+        # ---- known finding probe: a rotation whose off-diagonal terms are below math.is_affine_st's ABSOLUTE tolerance
+        # (1e-10) is dropped on the way through xarray coordinates (1e-6 deg pixels rotated 0.005 deg)
+        def tiny_rotation_probe():
+            import rasterio  # pylint: disable=import-outside-toplevel
+
+            A = Affine.translation(150.1, -33.3) * Affine.rotation(0.005) * Affine.scale(1e-6, -1e-6)
+            gb = GeoBox((200, 300), A, "epsg:4326")
+            bb = RIO.to_cog(wrap_xr(np.zeros((200, 300), "uint8"), gb), blocksize=64)
+            with rasterio.MemoryFile(bb).open() as f:
+                return geo_registration_error(A, f.transform, 200, 300)
+
+        msg = guarded(lambda: tiny_rotation_probe() or "")
+        R.oracle(msg == "", "transform-differs:rotation-below-is_affine_st-tolerance",
+                 {"fn": "to_cog", "shape": [200, 300], "affine": "translation(150.1,-33.3)*rotation(0.005)*scale(1e-6,-1e-6)", "crs": "epsg:4326"},
+                 "to_cog of a GeoBox with 1e-6 deg pixels rotated by 0.005 deg (off-diagonal 8.7e-11 < 1e-10) writes a north-up transform: " + msg,
+                 sig="probe|tiny-rotation")
 
         # ---- the keyword cross-product on small multi-tile images: every public entry point x destination x overview
         # mode x nodata (attrs absent/present x keyword absent/same/different) x windowed x ambient env; content pattern,
